@@ -663,6 +663,9 @@ class ConvexPolyhedron(Polyhedron):
 
         """
         _, principal_axes = np.linalg.eigh(self.inertia_tensor)
+        if np.linalg.det(principal_axes) < 0:
+            # eigh returns an orthogonal matrix of either handedness; keep the rotation proper.
+            principal_axes[:, 0] *= -1
         self._vertices = np.dot(self._vertices, principal_axes)
         self._sort_simplices()
         self._find_equations()
